@@ -190,6 +190,11 @@ Definition port_create (k : pkind) (n : node) (s : svc) (p : port) (conns : list
 Definition port_drop (k : pkind) (n : node) (s : svc) (p : port) (conns : list res) : list step :=
   [Rm (RegP s n p)] ++ (if has_data k then [Rm (Data n p)] else []) ++ map Rm conns ++ [Rm (PTag n p)].
 
+(* the inverted order for open (registry entry before the service tag): NOT what the code does; kept as the
+   refuted variant -- a reordering in service/builder/mod.rs open() shows up as a trace mismatch of the tie
+   (the registry entry is written right after the last attach of the dynamic config) and as this list *)
+Definition svc_open_swapped (n : node) (s : svc) : list step := [Mk (RegN s n); Mk (STag n s)].
+
 (* the orders that would satisfy the discipline where the transcribed ones do not *)
 Definition node_create_fixed (n : node) : list step := [Mk (Tok n); Mk (Det n)].
 Definition node_drop_fixed (n : node) : list step := [Rm (Det n); Rm (Tok n)].
@@ -238,3 +243,8 @@ Definition steps_of (o : op) : list step :=
   | OPortDrop k c => port_drop k 1 1 1 (peer_conns k c)
   end.
 Definition show_op (o : op) : list (tok * rname) := show (steps_of o).
+(* with the registry steps: for service open the check places the registry write at the last attach of the
+   existing dynamic config (register_node_id follows it without a gated call in between) *)
+Definition show_full (sts : list step) : list (tok * rname) :=
+  map (fun st => match st with Mk r => (TMk, name_of r) | Rm r => (TRm, name_of r) end) sts.
+Definition show_op_full (o : op) : list (tok * rname) := show_full (steps_of o).
